@@ -850,3 +850,130 @@ func init() {
 			return out
 		}})
 }
+
+// FLAGAFTER — an element whose components are transformed in place has its IsNTT flag updated in the same block.
+//
+// `ringQ.INTT(res[index].Value[0], res[index].Value[0])` (both components) leaves the element in the coefficient
+// domain; the `res[index].IsNTT = false` that goes with it is one forgotten line away from a ciphertext that every
+// consumer reads in the wrong domain. NTTDOM follows named paths; this rule covers the elements it cannot name (map and
+// slice elements) with a local, purely structural check.
+//
+// Rule (for elements that are members of a map or slice, `res[index]`, `cts[i]` — named elements are NTTDOM's): in a
+// statement list, when every component transform of an element expression E is done in place
+// (`r.NTT(E.Value[k], E.Value[k])` / `r.INTT(…)`, same expression as source and destination) the same list contains an
+// assignment `E.IsNTT = …` (or to E's whole MetaData) after the first of these calls. Elements whose flag is never
+// part of their contract (plain polynomials, buffers that are not metadata carriers) are out of scope.
+func scanFlagAfter(c *core.Ctx) []ob {
+	var out []ob
+	n := 0
+	c.FuncDecls(func(pk *packages.Package, file *ast.File, fd *ast.FuncDecl) {
+		if fd.Body == nil || fileIsTestSupport(c.Program, fd.Pos()) || inExamples(pk) {
+			return
+		}
+		info := pk.TypesInfo
+		fkey := core.FuncKey(pk, fd)
+		ord := 0
+		var visit func(list []ast.Stmt)
+		visit = func(list []ast.Stmt) {
+			type site struct {
+				pos token.Pos
+				op  string
+			}
+			first := map[string]site{}
+			flagSet := map[string]token.Pos{}
+			for _, st := range list {
+				switch v := st.(type) {
+				case *ast.ExprStmt:
+					call, ok := v.X.(*ast.CallExpr)
+					if !ok || len(call.Args) != 2 {
+						break
+					}
+					se, ok := unparen(call.Fun).(*ast.SelectorExpr)
+					if !ok || (se.Sel.Name != "NTT" && se.Sel.Name != "INTT") {
+						break
+					}
+					if exprString(call.Args[0]) != exprString(call.Args[1]) {
+						break
+					}
+					ie, ok := unparen(call.Args[0]).(*ast.IndexExpr)
+					if !ok {
+						break
+					}
+					vs, ok := unparen(ie.X).(*ast.SelectorExpr)
+					if !ok || vs.Sel.Name != "Value" || !isMetaCarrier(info.TypeOf(vs.X)) {
+						break
+					}
+					// only elements NTTDOM cannot name: members of a map or slice of elements (`res[index]`, `cts[i]`)
+					if _, isIdx := unparen(vs.X).(*ast.IndexExpr); !isIdx {
+						break
+					}
+					e := exprString(vs.X)
+					if _, seen := first[e]; !seen {
+						first[e] = site{call.Pos(), se.Sel.Name}
+					}
+				case *ast.AssignStmt:
+					for _, l := range v.Lhs {
+						ls := exprString(l)
+						for _, suf := range []string{".IsNTT", ".MetaData", ".MetaData.IsNTT"} {
+							if strings.HasSuffix(ls, suf) {
+								flagSet[strings.TrimSuffix(ls, suf)] = v.Pos()
+							}
+						}
+						if st, ok := unparen(l).(*ast.StarExpr); ok && strings.HasSuffix(exprString(st.X), ".MetaData") {
+							flagSet[strings.TrimSuffix(exprString(st.X), ".MetaData")] = v.Pos()
+						}
+					}
+				}
+				// nested lists
+				switch v := st.(type) {
+				case *ast.IfStmt:
+					visit(v.Body.List)
+					if eb, ok := v.Else.(*ast.BlockStmt); ok {
+						visit(eb.List)
+					} else if ei, ok := v.Else.(*ast.IfStmt); ok {
+						visit([]ast.Stmt{ei})
+					}
+				case *ast.ForStmt:
+					visit(v.Body.List)
+				case *ast.RangeStmt:
+					visit(v.Body.List)
+				case *ast.BlockStmt:
+					visit(v.List)
+				case *ast.SwitchStmt:
+					for _, cc := range v.Body.List {
+						visit(cc.(*ast.CaseClause).Body)
+					}
+				case *ast.TypeSwitchStmt:
+					for _, cc := range v.Body.List {
+						visit(cc.(*ast.CaseClause).Body)
+					}
+				}
+			}
+			for e, s := range first {
+				n++
+				ord++
+				key := fmt.Sprintf("FLAGAFTER:%s#%s@%d", fkey, e, ord)
+				if p, ok := flagSet[e]; ok && p > s.pos {
+					out = append(out, withProps(okOb("FLAGAFTER", key, c.Rel(s.pos), "the flag of the element is assigned after its components are transformed in place", true), propsForKey(fkey)...))
+				} else {
+					out = append(out, withProps(violOb("FLAGAFTER", key, c.Rel(s.pos), fmt.Sprintf("%s applies %s in place to the components of %s and the same block never assigns %s.IsNTT afterwards: the element leaves with the flag of the domain it came in with", fkey, s.op, e, e)), propsForKey(fkey)...))
+				}
+			}
+		}
+		visit(fd.Body.List)
+	})
+	c.Stats["flagafter_sites"] = n
+	return out
+}
+
+func init() {
+	core.Register(&core.Rule{Name: "FLAGAFTER", Props: []string{"C20", "C04", "C03", "C11", "C05", "C06", "C16", "C14", "C18", "C12", "C13"},
+		Doc: "in a statement list, a member of a map/slice of elements whose components are transformed in place by NTT/INTT (same expression as source and destination) has its IsNTT flag (or whole MetaData) assigned later in the same list",
+		Run: func(c *core.Ctx) []ob {
+			out := scanFlagAfter(c)
+			for _, o := range control(c, "FLAGAFTER", scanFlagAfter, "(fixEvaluator).ToCoeffs") {
+				out = append(out, withProps(o, "C20", "C04"))
+			}
+			return out
+		}})
+}
